@@ -1118,6 +1118,13 @@ std::string check_c08(Document& doc, bool ok_no_errors)
     for (auto* t : doc.get_dynamic_templates())
         if (t)
             c.templ(*t, false);
+    // the dynamic templates must be reachable: the accessor and the "has any" predicate describe the same list
+    if (doc.has_dynamic_templates() != !doc.get_dynamic_templates().empty())
+        return "the document says has_dynamic_templates()=" + std::to_string(doc.has_dynamic_templates()) + " but get_dynamic_templates() lists " +
+               std::to_string(doc.get_dynamic_templates().size());
+    for (auto* t : doc.get_dynamic_templates())
+        if (!t)
+            return "get_dynamic_templates() contains a null entry";
     auto& gf = doc.get_globals().frame;
     bool has_lsc = false;
     for (auto& t : doc.get_templates())
